@@ -107,19 +107,32 @@ class Harness:
 
     # -- helpers for subclasses
     def sym_str(self, eng, name, n, pred=None):
-        dom = eng.domain
-        cs = []
-        for i in range(n):
-            c = eng.fresh_int('%s_%d' % (name, i))
-            eng.assume(dom.member(c))
-            if pred is not None:
-                p = pred(c, i)
-                if p is not None:
-                    eng.assume(p)
-            cs.append(c)
-        s = SymStr(cs)
+        """fresh symbolic string of n characters; pred(c, i) -> extra z3 constraint per
+        character.  Variables and constraint terms are cached per process: z3 terms are
+        immutable and hash-consed, so re-using them across paths changes nothing but time."""
+        cache = self.__dict__.setdefault('_symstr_cache', {})
+        if pred is not None and '<lambda>' in getattr(pred, '__qualname__', '<lambda>'):
+            raise RuntimeError('sym_str predicates must be named module-level functions')
+        key = (name, n, eng.domain.name, pred)
+        got = cache.get(key)
+        if got is None:
+            dom = eng.domain
+            cs = []
+            cons = []
+            for i in range(n):
+                c = z3.Int('%s_%d' % (name, i))
+                cons.append(dom.member(c))
+                if pred is not None:
+                    p = pred(c, i)
+                    if p is not None:
+                        cons.append(p)
+                cs.append(c)
+            got = (tuple(cs), cons, pred)
+            cache[key] = got
+        for c in got[1]:
+            eng.assume(c)
         eng.inputs.append(name)
-        return s
+        return SymStr(got[0])
 
 
 def load_harness(prop):
